@@ -764,9 +764,42 @@ typedef struct
   uint32_t one;
 } blk_ctx;
 
+/* a page-aligned mapping of a file that was truncated after being mapped: every
+ * access to it raises SIGBUS, as for a file that shrinks while it is scanned */
+static const uint8_t* truncated_mapping(void)
+{
+  static uint8_t* map = NULL;
+  static pthread_mutex_t mu = PTHREAD_MUTEX_INITIALIZER;
+  pthread_mutex_lock(&mu);
+  if (map == NULL)
+  {
+    int fd = memfd_create("ytrunc", 0);
+    if (fd >= 0 && ftruncate(fd, 1 << 20) == 0)
+    {
+      void* m = mmap(NULL, 1 << 20, PROT_READ, MAP_SHARED, fd, 0);
+      if (m != MAP_FAILED)
+      {
+        if (ftruncate(fd, 0) == 0)
+          map = (uint8_t*) m;
+      }
+    }
+    /* the descriptor stays open on purpose */
+  }
+  pthread_mutex_unlock(&mu);
+  return map;
+}
+
 static const uint8_t* blk_fetch(YR_MEMORY_BLOCK* b)
 {
   blk_ctx* bc = (blk_ctx*) b->context;
+  if (bc->o->park_us > 0)
+    usleep(bc->o->park_us);
+  if (bc->o->fault_block > 0 && bc->cur == bc->o->fault_block - 1)
+  {
+    const uint8_t* t = truncated_mapping();
+    if (t != NULL)
+      return t;
+  }
   return bc->data + bc->cur_off;
 }
 
